@@ -2703,7 +2703,10 @@ class Circuit(Unitary, StateVectorMap, Collection[Operation]):
             self.check_parameters(params)
             param_index = 0
 
-        new_state = StateVector(in_state)
+        if isinstance(in_state, StateVector):
+            new_state = StateVector(in_state)
+        else:
+            new_state = StateVector(in_state, self.radixes)
 
         for op in self:
             if len(params) != 0:
